@@ -1,5 +1,7 @@
 import Holpy.C13.Wire
 import Holpy.C14.Model
+import Holpy.C14.ExistsModel
+import Holpy.C14.SearchModel
 import Holpy.C13.ExportModel
 import Holpy.C13.RevertModel
 /-
@@ -13,6 +15,7 @@ Line protocol, additions for the method-level model of C14 (everything else: Hol
   (searchfilter N GF GI GE FF FE)        -> (T|F T|F T|F T|F)   introduction exists_elim forall_elim inst_exists_goal suggested?
   (applicable RULE N GF GI GE FF FE)     -> (T|F T|F T|F)   introduction exists_elim inst_exists_goal: first tests of `apply` pass?
   (revert STATE ID FACT TH RA RI)        -> (ok STATE) | (error KIND)     revert_intro.apply (RA/RI: rule codes of assume/intros)
+  (existselim STATE ID FACT T|F (TH ...) TH BODY RA RV RI) -> (ok STATE) | (error KIND)   exists_elim.apply
   (roundtrip STATE)                      -> (ok STATE) | (error KIND)     importLines [] (exportLines STATE)
   (import ((ID RULE (ID ...) TH) ...))   -> (ok STATE) | (error KIND)
 -/
@@ -64,6 +67,30 @@ def handle (line : String) : String :=
     match newOf new with
     | some new => toString (Sexp.list ((advertised new).map thTo))
     | none => "bad-op"
+  | some (.list [.atom "existselim", st, i, f, fe, vs, ath, b, ra, rv, ri]) =>
+    match stateOf st, idOf i, idOf f, fe.toBool?, (vs.toList? >>= fun xs => xs.mapM thOf), thOf ath, b.toNat?, ra.toNat?, rv.toNat?, ri.toNat? with
+    | some s, some i, some f, some fe, some vs, some ath, some b, some ra, some rv, some ri =>
+      resTo (existsElimM s i f fe vs ath b ra rv ri)
+    | _, _, _, _, _, _, _, _, _, _ => "bad-op"
+  | some (.list [.atom "searchbackward", n, es]) =>
+    -- (searchbackward NPREVS ((NAME HB HB1 q|r|(TH ...)) ...)) -> ((NAME q|(TH ...)) ...)   apply_backward_step.search
+    match n.toNat?, (es.toList? >>= fun xs => xs.mapM (fun
+        | .list [.atom nm, hb, hb1, out] => do
+          let o : TacOut ← (match out with
+            | .atom "q" => some TacOut.query
+            | .atom "r" => some TacOut.refused
+            | o => do
+              let ths ← (← o.toList?).mapM thOf
+              some (TacOut.gaps (ths.map (fun th => ⟨.mk [0] ruleSorry [] th false [], false⟩))))
+          some ((⟨nm, ← hb.toBool?, ← hb1.toBool?⟩ : DbEntry), o)
+        | _ => none)) with
+    | some n, some es =>
+      let tac := fun nm => match es.find? (fun e => e.1.name == nm) with
+        | some e => e.2
+        | none => TacOut.refused
+      toString (Sexp.list ((searchBackward (es.map (·.1)) n tac).map (fun sg =>
+        Sexp.list [.atom sg.1, match sg.2 with | none => .atom "q" | some a => Sexp.list (a.map thTo)])))
+    | _, _ => "bad-op"
   | some (.list [.atom "roundtrip", st]) =>
     match stateOf st with
     | some s => resTo (importLines [] (exportLines s))
